@@ -328,9 +328,7 @@ func paramsFromHeaders(endpoint *expr.HTTPEndpointExpr) []*Parameter {
 
 func paramFor(at *expr.AttributeExpr, name, in string, required bool) *Parameter {
 	alias := at
-	for expr.IsAlias(at.Type) {
-		at = at.Type.(expr.UserType).Attribute()
-	}
+	at = underlyingParam(at)
 	p := &Parameter{
 		In:          in,
 		Name:        name,
@@ -364,7 +362,30 @@ func paramFor(at *expr.AttributeExpr, name, in string, required bool) *Parameter
 	return p
 }
 
+// underlyingParam returns the attribute that defines the primitive, array or
+// map behind a parameter whose type is a user type: Swagger 2.0 parameters and
+// items are described inline, the name of a user type is not a valid type.
+func underlyingParam(at *expr.AttributeExpr) *expr.AttributeExpr {
+	for expr.IsPrimitive(at.Type) || expr.IsArray(at.Type) || expr.IsMap(at.Type) {
+		ut, ok := at.Type.(expr.UserType)
+		if !ok {
+			break
+		}
+		at = ut.Attribute()
+	}
+	return at
+}
+
 func itemsFromExpr(at *expr.AttributeExpr) *Items {
+	if expr.IsPrimitive(at.Type) || expr.IsArray(at.Type) {
+		if u := underlyingParam(at); u != at {
+			// keep the validations declared where the type is used
+			if at.Validation != nil {
+				u = &expr.AttributeExpr{Type: u.Type, Validation: at.Validation}
+			}
+			at = u
+		}
+	}
 	items := &Items{Type: at.Type.Name()}
 	p, ok := at.Type.(expr.Primitive)
 	if ok {
